@@ -77,7 +77,14 @@ def gen_case(seed, idx):
                 o["externalize"] = False
             hist.append(["buildA", o])
             hist.append(["publish", rng.choice(["atomic", "atomic", "torn_old_json", "truncated", "missing"])])
-        elif r < 0.65:
+        elif r < 0.42:
+            # a rebuild of A that dies part-way through its write-out (kill -9 or a full disk at the n-th page),
+            # published as it is
+            o = a_opts()
+            hist.append(["buildA_crash", {"opts": o, "action": rng.choice(["kill", "errno"]), "nth": rng.randint(1, 6),
+                                          "what": rng.choice(["html", "html", "css", "any-write"])}])
+            hist.append(["publish", "atomic"])
+        elif r < 0.7:
             hist.append(["corrupt", rng.choice(CORRUPT)])
         else:
             hist.append(["netfault", rng.choice(NET_FAULTS)])
@@ -489,13 +496,13 @@ def text_digest(bdoc):
 
 
 # ---------------------------------------------------------------------- runs
-def run_ford(root, proj, opts, body, workdir, tag, net=None, clock_seed=0, from_parent=False):
+def run_ford(root, proj, opts, body, workdir, tag, net=None, clock_seed=0, from_parent=False, faults=None):
     pdir = os.path.join(root, proj)
     with open(os.path.join(pdir, "proj.md"), "w") as f:
         f.write(project_file(opts, body))
     cwd, pf = (root, proj + "/proj.md") if from_parent else (pdir, "proj.md")
     spec = {"sandbox": root, "cwd": cwd, "argv": ["ford", pf], "mode": "full", "order_plan": {"mode": "sorted"},
-            "dir_order": "sorted", "clock": {"seed": clock_seed}, "net": net}
+            "dir_order": "sorted", "clock": {"seed": clock_seed}, "net": net, "faults": faults or []}
     return O.run_cold(spec, workdir, hashseed=0, tag=tag)
 
 
@@ -564,8 +571,29 @@ def evaluate(case, seed, workdir, history=None):
                 for f in check_i3(case, root):
                     out["findings"].append((f[0], f[1], step))
                 out["probes"]["I3_checked"] = out["probes"].get("I3_checked", 0) + 1
+        elif op == "buildA_crash":
+            o = {"project": "A", "src_dir": "./src", "output_dir": "./doc", "preprocess": False, "parallel": 0, "search": False,
+                 "graph": False}
+            o.update(arg["opts"])
+            if case.get("zsplit"):
+                o["external"] = "z = ../pubz"
+            pat = {"html": r"\.html$", "css": r"/css/", "any-write": r"."}[arg["what"]]
+            fl = [{"kind": "open-w", "path_re": pat, "nth": arg["nth"], "action": arg["action"], "errno": "ENOSPC"}]
+            r = run_ford(root, "A", o, "A project body.\n", wk, "A%d" % step, faults=fl)
+            out["n"] += 1
+            crashed = r["status"] == "killed" or (r["status"] == "ok" and r["result"]["outcome"]["kind"] != "ok")
+            out["faults"]["buildA_crash_" + arg["action"]] = out["faults"].get("buildA_crash_" + arg["action"], 0) + 1
+            if crashed:
+                out["probes"]["A_rebuild_died_midway"] = out["probes"].get("A_rebuild_died_midway", 0) + 1
+                next_publish_state = "crashed"
+            else:
+                next_publish_state = None
+            crashed_build = crashed
         elif op == "publish":
             channel = publish(root, arg, rng, None)
+            if locals().get("crashed_build"):
+                channel = "crashed"
+                crashed_build = False
             out["faults"]["publish_" + arg] = out["faults"].get("publish_" + arg, 0) + 1
         elif op == "corrupt":
             if channel == "absent":
@@ -638,6 +666,13 @@ def evaluate(case, seed, workdir, history=None):
                     out["probes"]["I2_with_links"] = out["probes"].get("I2_with_links", 0) + 1
                 for f in fnd:
                     out["findings"].append((f[0], f[1], step))
+            elif channel == "crashed" and not fault_now:
+                # whatever the dead rebuild of A left behind: B may have links into A or not, but none may dangle
+                fnd, nl = check_i2(case, root, via, bdoc)
+                out["probes"]["I2_dangling_checked_after_crashed_rebuild"] = out["probes"].get("I2_dangling_checked_after_crashed_rebuild", 0) + 1
+                for f in fnd:
+                    if f[0].startswith("I2/dangling") or f[0].startswith("I2/fragment"):
+                        out["findings"].append((f[0].replace("I2/", "I2/after-crashed-rebuild/"), f[1], step))
             elif fault_now or channel in ("corrupt", "missing", "absent"):
                 pending_i5.append((step, label, text_digest(bdoc)))
     for step, label, dig in pending_i5:
